@@ -5,17 +5,16 @@ import TIV.C14.Proofs
 namespace TIV.C14
 
 /-- generic re-assembly of the invariant after a step of thread `t` that leaves every process's
-    global and the set of running processes alone -/
+    global, the set of running processes and the terminal alone -/
 theorem Inv.upd {s s' : State} (h : Inv s) (t : Nat) (x : TState)
     (hproc : s'.proc = s.proc) (hthr : s'.thr = fun i => if i = t then x else s.thr i)
     (hcur : s'.cur = s.cur) (hupe : s'.up = s.up)
     (hup : s.up (s.proc t) = true)
     (hacc : Acc s'.thr s'.lk)
     (hg : x.good (s.proc t) (s.cur (s.proc t)))
-    (ht1 : ∀ u q, atR (s'.thr u) = some q → s'.repl ++ s'.pend = [q])
-    (ht2 : (∀ u, atR (s'.thr u) = none) → s'.repl ++ s'.pend = [])
-    (ht3 : ∀ e ∈ s'.log, e.2.1 = e.2.2) : Inv s' := by
-  refine ⟨hacc, ?_, ?_, ?_, ?_, ?_, ht1, ht2, ht3⟩
+    (ho : s'.outq = s.outq) (h1 : s'.repl = s.repl) (h2 : s'.pend = s.pend) (h3 : s'.log = s.log)
+    (hin : s.outq t ≠ none → x.inside = true) : Inv s' := by
+  refine ⟨hacc, ?_, ?_, ?_, ?_, ?_, ?_, ?_, ?_, ?_⟩
   · rw [hupe]; exact h.up0
   · rw [hupe, hcur]; exact h.curOK
   · rw [hupe, hcur]; exact h.child
@@ -30,23 +29,14 @@ theorem Inv.upd {s s' : State} (h : Inv s) (t : Nat) (x : TState)
     by_cases e : u = t
     · subst e; simp only [if_true]; exact hg
     · simp only [e, if_false]; exact h.good u
-
-/-- terminal facts carry over when the queues and the waiting status of the stepping thread do -/
-theorem Inv.term_same {s s' : State} (h : Inv s) (t : Nat) (x : TState)
-    (hthr : s'.thr = fun i => if i = t then x else s.thr i)
-    (hr : atR x = atR (s.thr t))
-    (h1 : s'.repl = s.repl) (h2 : s'.pend = s.pend) (h3 : s'.log = s.log) :
-    (∀ u q, atR (s'.thr u) = some q → s'.repl ++ s'.pend = [q]) ∧
-    ((∀ u, atR (s'.thr u) = none) → s'.repl ++ s'.pend = []) ∧
-    (∀ e ∈ s'.log, e.2.1 = e.2.2) := by
-  have same : ∀ u, atR (s'.thr u) = atR (s.thr u) := by
-    intro u; rw [hthr]
+  · rw [ho, h1, h2]; exact h.tsome
+  · rw [ho, h1, h2]; exact h.tnone
+  · intro u hu
+    rw [ho] at hu
+    rw [hthr]
     by_cases e : u = t
-    · subst e; simp only [if_true]; exact hr
-    · simp only [e, if_false]
-  refine ⟨?_, ?_, ?_⟩
-  · intro u q hq; rw [h1, h2]; rw [same] at hq; exact h.tsome u q hq
-  · intro hn; rw [h1, h2]; exact h.tnone (fun u => by rw [← same]; exact hn u)
+    · subst e; simp only [if_true]; exact hin hu
+    · simp only [e, if_false]; exact h.tin u hu
   · rw [h3]; exact h.tlog
 
 theorem good_top {p c} {f f' : Frame} {rest : List Frame} (hg : stackOK p c (f :: rest))
@@ -69,135 +59,77 @@ theorem stepFrame_inv {s s' : State} (h : Inv s) {t : Nat} {f : Frame} {rest : L
     intro hne; cases rest with
     | nil => exact absurd rfl hne
     | cons g r => exact hn.1
+  have hti := h.tin t
+  rw [hthr] at hti
   unfold stepFrame at hs
   cases hpc : f.pc <;> simp only [hpc] at hs
   case ld1 =>
     injection hs with hs; subst hs
-    have ht := h.term_same t (.sync { f with pc := .aq1, l1 := s.cur (s.proc t) } rest)
-      (s' := setThr s t _) rfl (by simp [atR, hthr, hpc]) rfl rfl rfl
-    refine h.upd t _ rfl rfl rfl rfl hup ?_ ?_ ht.1 ht.2.1 ht.2.2
+    refine h.upd t (.sync { f with pc := .aq1, l1 := s.cur (s.proc t) } rest)
+      rfl rfl rfl rfl hup ?_ ?_ rfl rfl rfl rfl ?_
     · exact h.acc.pure t _ (by intro L; simp [hthr, TState.held, Frame.held, hpc, Pc.has1, Pc.has2])
     · exact good_top hg ⟨fun _ => Or.inl rfl, by simp [Pc.dpc]⟩ (fun _ _ => rfl)
+    · intro hne; simpa [TState.inside, hpc, Pc.inCS] using hti hne
   case aq1 =>
     cases ha : (s.lk f.l1).acquire t with
     | none => simp [ha] at hs
     | some l =>
       simp only [ha, Option.map_some, Option.some.injEq] at hs; subst hs
-      have ht := h.term_same t (.sync { f with pc := .ld2 } rest)
-        (s' := setThr (setLk s f.l1 l) t _) rfl (by simp [atR, hthr, hpc]) rfl rfl rfl
-      refine h.upd t _ rfl rfl rfl rfl hup ?_ ?_ ht.1 ht.2.1 ht.2.2
+      refine h.upd t (.sync { f with pc := .ld2 } rest) rfl rfl rfl rfl hup ?_ ?_ rfl rfl rfl rfl ?_
       · exact h.acc.acq t _ f.l1 l ha (by
           intro L; simp [hthr, TState.held, Frame.held, hpc, Pc.has1, Pc.has2]; omega)
       · exact good_top hg ⟨fun _ => hf.1 (by simp [hpc]), by simp [Pc.dpc]⟩
           (fun hne _ => hnest hne (by simp [hpc]))
+      · intro hne; simpa [TState.inside, hpc, Pc.inCS] using hti hne
   case ld2 =>
     injection hs with hs; subst hs
-    have ht := h.term_same t (.sync { f with pc := .aq2, l2 := s.cur (s.proc t) } rest)
-      (s' := setThr s t _) rfl (by simp [atR, hthr, hpc]) rfl rfl rfl
-    refine h.upd t _ rfl rfl rfl rfl hup ?_ ?_ ht.1 ht.2.1 ht.2.2
+    refine h.upd t (.sync { f with pc := .aq2, l2 := s.cur (s.proc t) } rest)
+      rfl rfl rfl rfl hup ?_ ?_ rfl rfl rfl rfl ?_
     · exact h.acc.pure t _ (by intro L; simp [hthr, TState.held, Frame.held, hpc, Pc.has1, Pc.has2])
     · exact good_top hg ⟨fun _ => hf.1 (by simp [hpc]), fun _ => rfl⟩
         (fun hne _ => hnest hne (by simp [hpc]))
+    · intro hne; simpa [TState.inside, hpc, Pc.inCS] using hti hne
   case aq2 =>
     cases ha : (s.lk f.l2).acquire t with
     | none => simp [ha] at hs
     | some l =>
       simp only [ha, Option.map_some, Option.some.injEq] at hs; subst hs
-      have ht := h.term_same t (.sync { f with pc := .csW } rest)
-        (s' := setThr (setLk s f.l2 l) t _) rfl (by simp [atR, hthr, hpc]) rfl rfl rfl
-      refine h.upd t _ rfl rfl rfl rfl hup ?_ ?_ ht.1 ht.2.1 ht.2.2
+      refine h.upd t (.sync { f with pc := .cs } rest) rfl rfl rfl rfl hup ?_ ?_ rfl rfl rfl rfl ?_
       · exact h.acc.acq t _ f.l2 l ha (by
           intro L; simp [hthr, TState.held, Frame.held, hpc, Pc.has1, Pc.has2]; omega)
       · exact good_top hg ⟨fun _ => hf.1 (by simp [hpc]), fun _ => hf.2 (by simp [hpc, Pc.dpc])⟩
           (fun hne _ => hnest hne (by simp [hpc]))
-  case csW =>
-    injection hs with hs; subst hs
-    -- nobody is waiting for a reply: the writer is inside, so nobody else is, and it is at csW
-    have hin : (s.thr t).inside = true := by simp [hthr, TState.inside, hpc, Pc.inCS]
-    have hnone : ∀ u, atR (s.thr u) = none := by
-      intro u
-      by_cases e : u = t
-      · subst e; simp [hthr, atR, hpc]
-      · cases hu : s.thr u with
-        | idle => rfl
-        | start => rfl
-        | sync g r =>
-          by_cases hgp : g.pc = .csR
-          · have : (s.thr u).inside = true := by simp [hu, TState.inside, hgp, Pc.inCS]
-            exact absurd (h.mutex this hin) e
-          · simp [atR, hgp]
-    have hemp := h.tnone hnone
-    have hre : s.repl = [] ∧ s.pend = [] := by simpa using hemp
-    refine h.upd t (.sync { f with pc := .csR, q := s.nextQ } rest) rfl rfl rfl rfl hup ?_ ?_ ?_ ?_ ?_
-    · exact h.acc.pure t _ (by intro L; simp [hthr, TState.held, Frame.held, hpc, Pc.has1, Pc.has2])
-    · exact good_top hg ⟨fun _ => hf.1 (by simp [hpc]), fun _ => hf.2 (by simp [hpc, Pc.dpc])⟩
-        (fun hne _ => hnest hne (by simp [hpc]))
-    · intro u q hq
-      simp only [setThr] at hq ⊢
-      by_cases e : u = t
-      · subst e; simp [atR] at hq; subst hq; simp [hre.1, hre.2]
-      · simp only [e, if_false] at hq; rw [hnone u] at hq; cases hq
-    · intro hall
-      have := hall t
-      simp [setThr, atR] at this
-    · exact h.tlog
-  case csR =>
-    cases hrp : s.repl with
-    | nil => simp [hrp] at hs
-    | cons r rs =>
-      simp only [hrp, Option.some.injEq] at hs; subst hs
-      have hq := h.tsome t f.q (by simp [hthr, atR, hpc])
-      rw [hrp] at hq
-      have hr1 : r = f.q ∧ rs = [] ∧ s.pend = [] := by
-        simp at hq; exact ⟨hq.1, hq.2.1, hq.2.2⟩
-      obtain ⟨e1, e2, e3⟩ := hr1
-      subst e1; subst e2
-      have hin : (s.thr t).inside = true := by simp [hthr, TState.inside, hpc, Pc.inCS]
-      have hothers : ∀ u, u ≠ t → atR (s.thr u) = none := by
-        intro u e
-        cases hu : s.thr u with
-        | idle => rfl
-        | start => rfl
-        | sync g r =>
-          by_cases hgp : g.pc = .csR
-          · have : (s.thr u).inside = true := by simp [hu, TState.inside, hgp, Pc.inCS]
-            exact absurd (h.mutex this hin) e
-          · simp [atR, hgp]
-      refine h.upd t (.sync { f with pc := .csD } rest) rfl rfl rfl rfl hup ?_ ?_ ?_ ?_ ?_
+      · intro _; simp [TState.inside, Pc.inCS]
+  case cs =>
+    by_cases hc : (rest.isEmpty && (s.outq t).isSome) = true
+    · simp [hc] at hs
+    · simp only [hc, Bool.false_eq_true, if_false, Option.some.injEq] at hs; subst hs
+      refine h.upd t (.sync { f with pc := .rl2 } rest) rfl rfl rfl rfl hup ?_ ?_ rfl rfl rfl rfl ?_
       · exact h.acc.pure t _ (by intro L; simp [hthr, TState.held, Frame.held, hpc, Pc.has1, Pc.has2])
       · exact good_top hg ⟨fun _ => hf.1 (by simp [hpc]), fun _ => hf.2 (by simp [hpc, Pc.dpc])⟩
           (fun hne _ => hnest hne (by simp [hpc]))
-      · intro u q hq
-        simp only [setThr] at hq
-        by_cases e : u = t
-        · subst e; simp [atR] at hq
-        · simp only [e, if_false] at hq; rw [hothers u e] at hq; cases hq
-      · intro _; simp [setThr, e3]
-      · intro e he
-        simp only [setThr, List.mem_append, List.mem_singleton] at he
-        rcases he with he | he
-        · exact h.tlog e he
-        · subst he; rfl
-  case csD =>
-    injection hs with hs; subst hs
-    have ht := h.term_same t (.sync { f with pc := .rl2 } rest)
-      (s' := setThr s t _) rfl (by simp [atR, hthr, hpc]) rfl rfl rfl
-    refine h.upd t _ rfl rfl rfl rfl hup ?_ ?_ ht.1 ht.2.1 ht.2.2
-    · exact h.acc.pure t _ (by intro L; simp [hthr, TState.held, Frame.held, hpc, Pc.has1, Pc.has2])
-    · exact good_top hg ⟨fun _ => hf.1 (by simp [hpc]), fun _ => hf.2 (by simp [hpc, Pc.dpc])⟩
-        (fun hne _ => hnest hne (by simp [hpc]))
+      · intro hne
+        cases rest with
+        | nil =>
+          exfalso; apply hc
+          cases ho : s.outq t with
+          | none => exact absurd ho hne
+          | some v => simp
+        | cons g gs =>
+          have hgb : g.pc.inBody = true := hn.2
+          have : g.pc.inCS = true := by cases hp : g.pc <;> simp_all [Pc.inBody, Pc.inCS]
+          simp [TState.inside, this]
   case rl2 =>
     cases ha : (s.lk f.l2).release t with
     | none => simp [ha] at hs
     | some l =>
       simp only [ha, Option.map_some, Option.some.injEq] at hs; subst hs
-      have ht := h.term_same t (.sync { f with pc := .rl1 } rest)
-        (s' := setThr (setLk s f.l2 l) t _) rfl (by simp [atR, hthr, hpc]) rfl rfl rfl
-      refine h.upd t _ rfl rfl rfl rfl hup ?_ ?_ ht.1 ht.2.1 ht.2.2
+      refine h.upd t (.sync { f with pc := .rl1 } rest) rfl rfl rfl rfl hup ?_ ?_ rfl rfl rfl rfl ?_
       · exact h.acc.rel t _ f.l2 l ha (by
           intro L; simp [hthr, TState.held, Frame.held, hpc, Pc.has1, Pc.has2]; omega)
       · exact good_top hg ⟨fun _ => hf.1 (by simp [hpc]), by simp [Pc.dpc]⟩
           (fun hne _ => hnest hne (by simp [hpc]))
+      · intro hne; simpa [TState.inside, hpc, Pc.inCS] using hti hne
   case rl1 =>
     cases ha : (s.lk f.l1).release t with
     | none => simp [ha] at hs
@@ -205,22 +137,17 @@ theorem stepFrame_inv {s s' : State} (h : Inv s) {t : Nat} {f : Frame} {rest : L
       simp only [ha, Option.map_some, Option.some.injEq] at hs; subst hs
       cases rest with
       | nil =>
-        have ht := h.term_same t .idle
-          (s' := setThr (setLk s f.l1 l) t _) rfl (by simp [atR, hthr, hpc]) rfl rfl rfl
-        refine h.upd t _ rfl rfl rfl rfl hup ?_ ?_ ht.1 ht.2.1 ht.2.2
+        refine h.upd t .idle rfl rfl rfl rfl hup ?_ ?_ rfl rfl rfl rfl ?_
         · exact h.acc.rel t _ f.l1 l ha (by
             intro L; simp [hthr, TState.held, Frame.held, heldFs, hpc, Pc.has1, Pc.has2])
         · trivial
+        · intro hne; have := hti hne; simp [TState.inside, hpc, Pc.inCS] at this
       | cons g gs =>
-        have hgb : g.pc.inBody = true := hn.2
-        have ht := h.term_same t (.sync g gs)
-          (s' := setThr (setLk s f.l1 l) t _) rfl (by
-            have : g.pc ≠ .csR := by intro e; rw [e] at hgb; simp [Pc.inBody] at hgb
-            simp [atR, hthr, hpc, this]) rfl rfl rfl
-        refine h.upd t _ rfl rfl rfl rfl hup ?_ ?_ ht.1 ht.2.1 ht.2.2
+        refine h.upd t (.sync g gs) rfl rfl rfl rfl hup ?_ ?_ rfl rfl rfl rfl ?_
         · exact h.acc.rel t _ f.l1 l ha (by
             intro L; simp [hthr, TState.held, Frame.held, heldFs, hpc, Pc.has1, Pc.has2]; omega)
         · exact hr
+        · intro hne; simpa [TState.inside, hpc, Pc.inCS] using hti hne
 
 /-! ### the hand-over: `_tty_lock = mp_RLock()` while holding the old lock -/
 
@@ -296,9 +223,7 @@ theorem stepStart_inv {s s' : State} (h : Inv s) {t : Nat} {pc : SPc} {l pass : 
   cases pc <;> simp only at hs
   case ld =>
     injection hs with hs; subst hs
-    have ht := h.term_same t (.start .aq (s.cur (s.proc t)) pass c)
-      (s' := setThr s t _) rfl (by simp [atR, hthr]) rfl rfl rfl
-    refine h.upd t _ rfl rfl rfl rfl hup ?_ ?_ ht.1 ht.2.1 ht.2.2
+    refine h.upd t _ rfl rfl rfl rfl hup ?_ ?_ rfl rfl rfl rfl (fun hne => by have := h.tin t hne; simp [hthr, TState.inside] at this)
     · exact h.acc.pure t _ (by intro L; simp [hthr, TState.held, SPc.has])
     · exact ⟨fun _ => Or.inl rfl, by simp, by simp, by simp⟩
   case aq =>
@@ -306,17 +231,12 @@ theorem stepStart_inv {s s' : State} (h : Inv s) {t : Nat} {pc : SPc} {l pass : 
     | none => simp [ha] at hs
     | some x =>
       simp only [ha, Option.map_some, Option.some.injEq] at hs; subst hs
-      have ht := h.term_same t (.start .chk l pass c)
-        (s' := setThr (setLk s l x) t _) rfl (by simp [atR, hthr]) rfl rfl rfl
-      refine h.upd t _ rfl rfl rfl rfl hup ?_ ?_ ht.1 ht.2.1 ht.2.2
+      refine h.upd t _ rfl rfl rfl rfl hup ?_ ?_ rfl rfl rfl rfl (fun hne => by have := h.tin t hne; simp [hthr, TState.inside] at this)
       · exact h.acc.acq t _ l x ha (by intro L; simp [hthr, TState.held, SPc.has])
       · exact ⟨fun _ => g1 (by simp), by simp, by simp, by simp⟩
   case chk =>
     injection hs with hs; subst hs
-    have ht := h.term_same t
-      (.start (if (s.cur (s.proc t)).isThreadLock then .sw else .rd) l pass c)
-      (s' := setThr s t _) rfl (by simp [atR, hthr]) rfl rfl rfl
-    refine h.upd t _ rfl rfl rfl rfl hup ?_ ?_ ht.1 ht.2.1 ht.2.2
+    refine h.upd t _ rfl rfl rfl rfl hup ?_ ?_ rfl rfl rfl rfl (fun hne => by have := h.tin t hne; simp [hthr, TState.inside] at this)
     · exact h.acc.pure t _ (by
         intro L; cases (s.cur (s.proc t)).isThreadLock <;> simp [hthr, TState.held, SPc.has])
     · have hc := h.curOK _ hup
@@ -346,10 +266,12 @@ theorem stepStart_inv {s s' : State} (h : Inv s) {t : Nat} {pc : SPc} {l pass : 
       rw [hown] at this
       have hne : ¬ (t = u) := fun e => hu e.symm
       simpa [hne] using this
-    have ht := h.term_same t (.start .rl l (.M (s.proc t)) c)
-      (s' := setThr { s with cur := fun i => if i = s.proc t then .M (s.proc t) else s.cur i } t _)
-      rfl (by simp [atR, hthr]) rfl rfl rfl
-    refine ⟨?_, h.up0, ?_, ?_, ?_, ?_, ht.1, ht.2.1, ht.2.2⟩
+    have htin : ∀ u, s.outq u ≠ none → (if u = t then TState.start .rl l (.M (s.proc t)) c else s.thr u).inside = true := by
+      intro u hu
+      by_cases e : u = t
+      · subst e; have := h.tin u hu; simp [hthr, TState.inside] at this
+      · simp only [e, if_false]; exact h.tin u hu
+    refine ⟨?_, h.up0, ?_, ?_, ?_, ?_, h.tsome, h.tnone, htin, h.tlog⟩
     · exact h.acc.pure t _ (by intro L; simp [hthr, TState.held, SPc.has])
     · intro p hp
       show (if p = s.proc t then Lk.M (s.proc t) else s.cur p) = .M 0 ∨
@@ -382,9 +304,7 @@ theorem stepStart_inv {s s' : State} (h : Inv s) {t : Nat} {pc : SPc} {l pass : 
         · simp only [ep, if_false]; exact h.good u
   case rd =>
     injection hs with hs; subst hs
-    have ht := h.term_same t (.start .rl l (s.cur (s.proc t)) c)
-      (s' := setThr s t _) rfl (by simp [atR, hthr]) rfl rfl rfl
-    refine h.upd t _ rfl rfl rfl rfl hup ?_ ?_ ht.1 ht.2.1 ht.2.2
+    refine h.upd t _ rfl rfl rfl rfl hup ?_ ?_ rfl rfl rfl rfl (fun hne => by have := h.tin t hne; simp [hthr, TState.inside] at this)
     · exact h.acc.pure t _ (by intro L; simp [hthr, TState.held, SPc.has])
     · exact ⟨fun _ => g1 (by simp), by simp, by simp, fun _ => ⟨g3 rfl, g3 rfl⟩⟩
   case rl =>
@@ -392,9 +312,7 @@ theorem stepStart_inv {s s' : State} (h : Inv s) {t : Nat} {pc : SPc} {l pass : 
     | none => simp [ha] at hs
     | some x =>
       simp only [ha, Option.map_some, Option.some.injEq] at hs; subst hs
-      have ht := h.term_same t (.start .fk l pass c)
-        (s' := setThr (setLk s l x) t _) rfl (by simp [atR, hthr]) rfl rfl rfl
-      refine h.upd t _ rfl rfl rfl rfl hup ?_ ?_ ht.1 ht.2.1 ht.2.2
+      refine h.upd t _ rfl rfl rfl rfl hup ?_ ?_ rfl rfl rfl rfl (fun hne => by have := h.tin t hne; simp [hthr, TState.inside] at this)
       · exact h.acc.rel t _ l x ha (by intro L; simp [hthr, TState.held, SPc.has])
       · exact ⟨fun _ => g1 (by simp), by simp, by simp, fun _ => g4 (Or.inl rfl)⟩
   case fk =>
@@ -408,11 +326,12 @@ theorem stepStart_inv {s s' : State} (h : Inv s) {t : Nat} {pc : SPc} {l pass : 
         by_cases e : s.proc t = 0
         · have := hcM; rwa [e] at this
         · exact h.child _ e hup
-      have ht := h.term_same t .idle
-        (s' := setThr { s with up := fun i => if i = c then true else s.up i,
-                               cur := fun i => if i = c then pass else s.cur i } t .idle)
-        rfl (by simp [atR, hthr]) rfl rfl rfl
-      refine ⟨?_, ?_, ?_, ?_, ?_, ?_, ht.1, ht.2.1, ht.2.2⟩
+      have htin : ∀ u, s.outq u ≠ none → (if u = t then TState.idle else s.thr u).inside = true := by
+        intro u hu
+        by_cases e : u = t
+        · subst e; have := h.tin u hu; simp [hthr, TState.inside] at this
+        · simp only [e, if_false]; exact h.tin u hu
+      refine ⟨?_, ?_, ?_, ?_, ?_, ?_, h.tsome, h.tnone, htin, h.tlog⟩
       · exact h.acc.pure t _ (by intro L; simp [hthr, TState.held, SPc.has])
       · show (if 0 = c then true else s.up 0) = true
         simp [h.up0]
@@ -459,9 +378,9 @@ theorem Inv.step {s s' : State} (h : Inv s) {t : Nat} {a : Act} (hs : step s t a
     | nil => simp [hp] at hs
     | cons q ps =>
       simp only [hp, Option.some.injEq] at hs; subst hs
-      refine ⟨h.acc, h.up0, h.curOK, h.child, h.down, h.good, ?_, ?_, h.tlog⟩
-      · intro u q' hq
-        have := h.tsome u q' hq
+      refine ⟨h.acc, h.up0, h.curOK, h.child, h.down, h.good, ?_, ?_, h.tin, h.tlog⟩
+      · intro u q' k hq
+        have := h.tsome u q' k hq
         rw [hp] at this
         simpa using this
       · intro hn
@@ -477,28 +396,27 @@ theorem Inv.step {s s' : State} (h : Inv s) {t : Nat} {a : Act} (hs : step s t a
       cases hthr : s.thr t with
       | idle =>
         simp only [hthr, Option.some.injEq] at hs; subst hs
-        have ht := h.term_same t (.sync newFrame [])
-          (s' := setThr s t _) rfl (by simp [atR, hthr, newFrame]) rfl rfl rfl
-        refine h.upd t _ rfl rfl rfl rfl hup ?_ ?_ ht.1 ht.2.1 ht.2.2
+        refine h.upd t (.sync newFrame []) rfl rfl rfl rfl hup ?_ ?_ rfl rfl rfl rfl ?_
         · exact h.acc.pure t _ (by
             intro L; simp [hthr, TState.held, Frame.held, heldFs, newFrame, Pc.has1, Pc.has2])
         · exact ⟨⟨by simp [newFrame], by simp [newFrame, Pc.dpc]⟩, trivial, trivial⟩
+        · intro hne; have := h.tin t hne; simp [hthr, TState.inside] at this
       | sync f rest =>
         simp only [hthr] at hs
         cases hb : f.pc.inBody with
         | false => simp [hb] at hs
         | true =>
           simp only [hb, if_true, Option.some.injEq] at hs; subst hs
-          have hne : f.pc ≠ .csR := by intro e; rw [e] at hb; simp [Pc.inBody] at hb
-          have ht := h.term_same t (.sync newFrame (f :: rest))
-            (s' := setThr s t _) rfl (by simp [atR, hthr, newFrame, hne]) rfl rfl rfl
           have hg := h.good t
           rw [hthr] at hg
-          refine h.upd t _ rfl rfl rfl rfl hup ?_ ?_ ht.1 ht.2.1 ht.2.2
+          refine h.upd t (.sync newFrame (f :: rest)) rfl rfl rfl rfl hup ?_ ?_ rfl rfl rfl rfl ?_
           · exact h.acc.pure t _ (by
               intro L; simp [hthr, TState.held, Frame.held, heldFs, newFrame, Pc.has1, Pc.has2])
           · exact ⟨⟨by simp [newFrame], by simp [newFrame, Pc.dpc]⟩,
               ⟨by simp [newFrame], hb⟩, hg⟩
+          · intro _
+            have : f.pc.inCS = true := by cases hp : f.pc <;> simp_all [Pc.inBody, Pc.inCS]
+            simp [TState.inside, this]
       | start pc l pass c => simp [hthr] at hs
   | start c =>
     simp only at hs
@@ -509,11 +427,10 @@ theorem Inv.step {s s' : State} (h : Inv s) {t : Nat} {a : Act} (hs : step s t a
       cases hthr : s.thr t with
       | idle =>
         simp only [hthr, Option.some.injEq] at hs; subst hs
-        have ht := h.term_same t (.start .ld (.T 0) (.T 0) c)
-          (s' := setThr s t _) rfl (by simp [atR, hthr]) rfl rfl rfl
-        refine h.upd t _ rfl rfl rfl rfl hup ?_ ?_ ht.1 ht.2.1 ht.2.2
+        refine h.upd t (.start .ld (.T 0) (.T 0) c) rfl rfl rfl rfl hup ?_ ?_ rfl rfl rfl rfl ?_
         · exact h.acc.pure t _ (by intro L; simp [hthr, TState.held, SPc.has])
         · exact ⟨by simp, by simp, by simp, by simp⟩
+        · intro hne; have := h.tin t hne; simp [hthr, TState.inside] at this
       | sync f rest => simp [hthr] at hs
       | start pc l pass c => simp [hthr] at hs
   | adv =>
@@ -526,7 +443,7 @@ theorem Inv.step {s s' : State} (h : Inv s) {t : Nat} {a : Act} (hs : step s t a
       | idle => simp [hthr] at hs
       | sync f rest => simp only [hthr] at hs; exact stepFrame_inv h hup hthr hs
       | start pc l pass c => simp only [hthr] at hs; exact stepStart_inv h hup hthr hs
-  | noq =>
+  | wr =>
     simp only at hs
     cases hup : s.up (s.proc t) with
     | false => simp [hup] at hs
@@ -537,22 +454,120 @@ theorem Inv.step {s s' : State} (h : Inv s) {t : Nat} {a : Act} (hs : step s t a
       | start pc l pass c => simp [hthr] at hs
       | sync f rest =>
         simp only [hthr] at hs
-        by_cases hpc : f.pc = .csW
-        · simp only [hpc, if_true, Option.some.injEq] at hs; subst hs
-          have ht := h.term_same t (.sync { f with pc := .csD } rest)
-            (s' := setThr s t _) rfl (by simp [atR, hthr, hpc]) rfl rfl rfl
-          have hg := h.good t
-          rw [hthr] at hg
-          have hg' : stackOK (s.proc t) (s.cur (s.proc t)) (f :: rest) := hg
-          refine h.upd t _ rfl rfl rfl rfl hup ?_ ?_ ht.1 ht.2.1 ht.2.2
-          · exact h.acc.pure t _ (by
-              intro L; simp [hthr, TState.held, Frame.held, hpc, Pc.has1, Pc.has2])
-          · refine good_top hg ⟨fun _ => hg'.1.1 (by simp [hpc]),
-              fun _ => hg'.1.2 (by simp [hpc, Pc.dpc])⟩ ?_
-            intro hne _
-            cases rest with
-            | nil => exact absurd rfl hne
-            | cons g r => exact hg'.2.1.1 (by simp [hpc])
+        by_cases hpc : f.pc = .cs
+        · simp only [hpc, if_true] at hs
+          cases ho : s.outq t with
+          | some v => simp [ho] at hs
+          | none =>
+            simp only [ho, Option.some.injEq] at hs; subst hs
+            have hin : (s.thr t).inside = true := by simp [hthr, TState.inside, hpc, Pc.inCS]
+            -- the writer is inside, so nobody else is; it has nothing outstanding: nobody has
+            have hnone : ∀ u, s.outq u = none := by
+              intro u
+              by_cases e : u = t
+              · rw [e]; exact ho
+              · cases hu : s.outq u with
+                | none => rfl
+                | some v =>
+                  have : (s.thr u).inside = true := h.tin u (by rw [hu]; simp)
+                  exact absurd (h.mutex this hin) e
+            have hemp := h.tnone hnone
+            have hre : s.repl = [] ∧ s.pend = [] := by simpa using hemp
+            refine ⟨h.acc, h.up0, h.curOK, h.child, h.down, h.good, ?_, ?_, ?_, h.tlog⟩
+            · intro u q k hq
+              change (if u = t then some (s.nextQ, replyParts) else s.outq u) = some (q, k) at hq
+              show s.repl ++ (s.pend ++ partsFrom s.nextQ replyParts) = partsFrom q k ∧ _
+              by_cases e : u = t
+              · simp only [e, if_true, Option.some.injEq, Prod.mk.injEq] at hq
+                obtain ⟨e1, e2⟩ := hq
+                subst e1; subst e2
+                simp [hre.1, hre.2, replyParts]
+              · simp only [e, if_false] at hq; rw [hnone u] at hq; cases hq
+            · intro hall
+              have := hall t
+              change (if t = t then some (s.nextQ, replyParts) else s.outq t) = none at this
+              simp at this
+            · intro u hu
+              change (if u = t then some (s.nextQ, replyParts) else s.outq u) ≠ none at hu
+              by_cases e : u = t
+              · rw [e]; exact hin
+              · simp only [e, if_false] at hu; exact h.tin u hu
+        · simp [hpc] at hs
+  | rd =>
+    simp only at hs
+    cases hup : s.up (s.proc t) with
+    | false => simp [hup] at hs
+    | true =>
+      simp only [hup, if_true] at hs
+      cases hthr : s.thr t with
+      | idle => simp [hthr] at hs
+      | start pc l pass c => simp [hthr] at hs
+      | sync f rest =>
+        simp only [hthr] at hs
+        by_cases hpc : f.pc = .cs
+        · simp only [hpc, if_true] at hs
+          cases ho : s.outq t with
+          | none => simp [ho] at hs
+          | some v =>
+            obtain ⟨q, k⟩ := v
+            cases hrp : s.repl with
+            | nil => simp [ho, hrp] at hs
+            | cons r rs =>
+              simp only [ho, hrp, Option.some.injEq] at hs; subst hs
+              obtain ⟨hq, hk0, hk2⟩ := h.tsome t q k ho
+              have hin : (s.thr t).inside = true := by simp [hthr, TState.inside, hpc, Pc.inCS]
+              have hothers : ∀ u, u ≠ t → s.outq u = none := by
+                intro u e
+                cases hu : s.outq u with
+                | none => rfl
+                | some v =>
+                  have : (s.thr u).inside = true := h.tin u (by rw [hu]; simp)
+                  exact absurd (h.mutex this hin) e
+              rw [hrp] at hq
+              -- k is 1 or 2
+              have hk : k = 1 ∨ k = 2 := by unfold replyParts at hk2; omega
+              refine ⟨h.acc, h.up0, h.curOK, h.child, h.down, h.good, ?_, ?_, ?_, ?_⟩
+              · intro u q' k' hq'
+                change (if u = t then (if k ≤ 1 then none else some (q, k - 1)) else s.outq u)
+                  = some (q', k') at hq'
+                show rs ++ s.pend = partsFrom q' k' ∧ _
+                by_cases e : u = t
+                · simp only [e, if_true] at hq'
+                  rcases hk with hk | hk
+                  · subst hk; simp at hq'
+                  · subst hk
+                    simp only [show ¬ (2 ≤ 1) by omega, if_false, Option.some.injEq,
+                      Prod.mk.injEq] at hq'
+                    obtain ⟨e1, e2⟩ := hq'
+                    subst e1; subst e2
+                    simp [partsFrom, replyParts] at hq ⊢
+                    exact hq.2
+                · simp only [e, if_false] at hq'; rw [hothers u e] at hq'; cases hq'
+              · intro hall
+                show rs ++ s.pend = []
+                have := hall t
+                change (if t = t then (if k ≤ 1 then none else some (q, k - 1)) else s.outq t)
+                  = none at this
+                simp only [if_true] at this
+                rcases hk with hk | hk
+                · subst hk; simp [partsFrom, replyParts] at hq; simp [hq.2.1, hq.2.2]
+                · subst hk; simp at this
+              · intro u hu
+                change (if u = t then (if k ≤ 1 then none else some (q, k - 1)) else s.outq u)
+                  ≠ none at hu
+                by_cases e : u = t
+                · rw [e]; exact hin
+                · simp only [e, if_false] at hu; exact h.tin u hu
+              · intro e he
+                change e ∈ s.log ++ [(t, q, r)] at he
+                simp only [List.mem_append, List.mem_singleton] at he
+                rcases he with he | he
+                · exact h.tlog e he
+                · subst he
+                  show r.1 = q
+                  rcases hk with hk | hk
+                  · subst hk; simp [partsFrom, replyParts] at hq; rw [hq.1]
+                  · subst hk; simp [partsFrom, replyParts] at hq; rw [hq.1]
         · simp [hpc] at hs
 
 theorem Reachable.inv {proc : Nat → Nat} {s : State} (h : Reachable proc s) : Inv s := by
